@@ -114,6 +114,169 @@ Example ex_reach_disjoint :
 Proof. vm_compute. split; reflexivity. Qed.
 
 (* ------------------------------------------------------------------------------------------------
+   WRITER MODEL (Format/TreeWriter.v, TreeShape.v, ImageWriter.v): model_images_wf.
+
+   wtree      a logical B+tree whose nodes carry the page they are written to
+   finalize   = finalize_dirty_checksums: checksums bottom-up (leaf: XXH3-128 of the covered bytes; a branch
+              first receives its children's checksums, then its own covered bytes are hashed)
+   encode_tree = (page number, covered page bytes) of every node through the page encoders of Pages.v
+              (LeafBuilder / BranchBuilder layouts) + the root BtreeHeader (root page, checksum, length)
+   shape_of kenc venc t w : w is C04's logical tree t (abstract keys/values) with keys/values encoded and
+              SOME page number on every node -- quantifying over w is quantifying over page assignments
+   db1_image  a whole single-table database: header, commit slot, catalog leaf, the table tree.
+   f          the value of the RESERVED page bytes (byte 1; bytes 4..7 of a branch): the builders never write
+              them, new pages are 0x00-filled in release builds and 0xFF-filled under debug_assertions; they are
+              covered by the checksums, so the writer model takes f as a parameter (all theorems: every f) *)
+From RV Require Import Base.SortedMap Format.Xxh3P Format.TreeWriter Format.TreeWriterP Format.TreeShape Format.TreeShapeP
+  Format.ModelTreeP Format.WritePagesP Format.ImageWriter Format.ImageWriterP Format.ModelImagesP Format.ModelExample Format.ModelExampleP
+  Btree.Tree Btree.Read Btree.Mutator.
+
+(* a checksum fits the 16 bytes it is stored in *)
+Theorem xxh3_128_bound : forall d, xxh3_128 d < 2 ^ 128.
+Proof. exact Xxh3P.xxh3_128_bound. Qed.
+
+(* (a) tree-level round trip, all trees: if the image (any store s) holds the pages encode_tree writes --
+   each page's byte range starts with the written bytes -- then the reader's tree walk from the root page
+   returns exactly the finalized tree (page numbers, covered lengths, checksums recomputed from the
+   image, stored child checksums, entries, routing keys) and consumes one page of budget per node.
+   limits_okb = what the codec needs: node non-empty, < 2^16 entries, < 2^32 bytes, fixed widths respected *)
+Theorem tree_roundtrip : forall f ks vs s, geom_ok (st_geom s) = true ->
+  forall t fuel budget,
+  limits_okb f ks vs t = true -> (wheight t < fuel)%nat -> lenN (wpages t) <= budget ->
+  Forall (holds s) (tree_image f ks vs (finalize f ks vs t)) ->
+  dtree fuel s ks vs (wpn t) budget = Ok (finalize f ks vs t, budget - lenN (wpages t)).
+Proof. exact TreeWriterP.dtree_finalize. Qed.
+
+(* (b) C04's tree invariant (sorted leaves, separators bounding both sides, uniform depth, non-empty nodes)
+   => the tree clauses of the specification hold of the written tree: strictly increasing keys, routing
+   keys bound both neighbouring subtrees and increase, all leaves at depth h, EVERY stored child checksum =
+   XXH3-128 of the child's covered bytes; the root header names the root page, stores the root's checksum
+   and the number of entries present; the decoded entries are the encoded in-order contents *)
+Theorem inv_wf_tree : forall K V (cmp : K -> K -> comparison), OrderLaws cmp ->
+  forall (kenc : K -> bytes) (venc : V -> bytes) (bcmp : cmp_fn),
+  (forall a b, bcmp (kenc a) (kenc b) = cmp a b) ->
+  forall f ks vs h lo hi (t : @node K V) w,
+  inv cmp h lo hi t -> shape_of kenc venc t w -> wf_tree (Some bcmp) (finalize f ks vs w) h.
+Proof. exact (@TreeShapeP.inv_wf). Qed.
+
+Theorem written_tree_read_wf : forall K V (cmp : K -> K -> comparison), OrderLaws cmp ->
+  forall (kenc : K -> bytes) (venc : V -> bytes) (bcmp : cmp_fn),
+  (forall a b, bcmp (kenc a) (kenc b) = cmp a b) ->
+  forall f ks vs (t : @node K V) w s budget,
+  BTreeInv cmp t -> shape_of kenc venc t w ->
+  geom_ok (st_geom s) = true -> writer_okb f ks vs w = true -> lenN (wpages w) <= budget ->
+  Forall (holds s) (fst (encode_tree f ks vs w)) ->
+  let hdr := snd (encode_tree f ks vs w) in
+  exists d,
+    droot s ks vs (Some hdr) budget = Ok (Some d, budget - lenN (wpages w))
+    /\ wf_root (Some bcmp) (Some hdr) (Some d)
+    /\ entries d = List.map (enc_entry kenc venc) (abs t)
+    /\ bh_len hdr = len (abs t)
+    /\ tree_pages d = wpages w.
+Proof. exact (@ModelTreeP.written_tree_read_wf). Qed.
+
+(* (c) tree level: the tree left by EVERY program (reads, insert, remove, pop_first, pop_last) of C04's mutator
+   model run from the empty table -- every page size, size functions, valid separator, in-place oracle --
+   written to ANY pages of ANY image holding them *)
+Theorem model_tree_wf : forall K V (cmp : K -> K -> comparison), OrderLaws cmp ->
+  forall (kenc : K -> bytes) (venc : V -> bytes) (bcmp : cmp_fn),
+  (forall a b, bcmp (kenc a) (kenc b) = cmp a b) ->
+  forall f (ksize : K -> N) (vsize : V -> N) (fixed_k fixed_v : bool) (page_size : N)
+         (sep : K -> K -> K) (inplace : list (K * V) -> K -> V -> bool),
+  valid_sep cmp sep ->
+  forall ks vs (ops : list (@tree_op K V)) t w s budget,
+  let bt := snd (run_tree cmp ksize vsize fixed_k fixed_v page_size sep inplace ops empty_tree) in
+  bt_root bt = Some t -> shape_of kenc venc t w ->
+  geom_ok (st_geom s) = true -> writer_okb f ks vs w = true -> lenN (wpages w) <= budget ->
+  Forall (holds s) (fst (encode_tree f ks vs w)) ->
+  let hdr := snd (encode_tree f ks vs w) in
+  exists d,
+    droot s ks vs (Some hdr) budget = Ok (Some d, budget - lenN (wpages w))
+    /\ wf_root (Some bcmp) (Some hdr) (Some d)
+    /\ entries d = List.map (enc_entry kenc venc) (abs t)
+    /\ bh_len hdr = bt_len bt
+    /\ tree_pages d = wpages w.
+Proof. exact (@ModelTreeP.model_tree_wf). Qed.
+
+(* patching pages with pairwise disjoint in-layout page numbers into an image: every written page is then
+   held by the store the reader builds, the length and the first page (database header) are unchanged *)
+Theorem write_pages_holds : forall g base ps,
+  0 < g_psz g -> geom_ok g = true ->
+  Forall (fun pb => in_layout g (fst pb) = true /\ page_end g (fst pb) <= lenN base
+                    /\ lenN (snd pb) <= page_len g (fst pb)) ps ->
+  ForallOrdPairs pages_disjoint (List.map fst ps) ->
+  lenN (write_pages g base ps) = lenN base
+  /\ Forall (holds (store_of (write_pages g base ps) g)) ps
+  /\ (forall o n, o + n <= g_psz g -> slice (write_pages g base ps) o n = slice base o n).
+Proof. exact ImageWriterP.write_pages_holds. Qed.
+
+(* the whole single-table image: the reader decodes exactly the expected forest, for every tree *)
+Theorem decode_db1 : forall f g txid ts master_pn w,
+  db1_okb f g txid ts master_pn w = true ->
+  decode_db (db1_image f g txid ts master_pn w) SlotPrimary = Ok (db1_decoded f g txid ts master_pn w).
+Proof. exact ImageWriterP.decode_db1. Qed.
+
+(* the executable page assignment (pre-order from a list) is among the assignments quantified over *)
+Theorem place_shape : forall K V (kenc : K -> bytes) (venc : V -> bytes) (t : @node K V) pns w r,
+  place kenc venc t pns = Some (w, r) -> shape_of kenc venc t w.
+Proof. exact (@TreeShapeP.place_shape). Qed.
+
+(* model_images_wf, any tree satisfying the invariant: the image is well-formed (wf_image = geometry, slot
+   checksum, catalog, table tree clauses above, table length = entries present, every reachable page
+   inside the layout and no page referenced twice) and the reader finds the encoded contents in it.
+   db1_okb = side conditions on the INPUT of the writer: valid geometry, codec limits, depth < MAX_BTREE_DEPTH,
+   every node fits the page assigned to it, pages pairwise disjoint inside the layout, type names non-empty *)
+Theorem inv_image_wf : forall K V (cmp : K -> K -> comparison), OrderLaws cmp ->
+  forall (kenc : K -> bytes) (venc : V -> bytes) (bcmp : cmp_fn),
+  (forall a b, bcmp (kenc a) (kenc b) = cmp a b) ->
+  forall f (t : @node K V) w g txid ts master_pn,
+  BTreeInv cmp t -> shape_of kenc venc t w ->
+  db1_okb f g txid ts master_pn w = true ->
+  cmp_of_typename (ts_ktype ts) = Some bcmp ->
+  wf_image (db1_image f g txid ts master_pn w)
+  /\ image_table_entries (db1_image f g txid ts master_pn w) (ts_name ts)
+     = Some (List.map (enc_entry kenc venc) (abs t)).
+Proof. exact (@ModelImagesP.inv_image_wf). Qed.
+
+(* model_images_wf: every program of the mutator model from the empty table (non-empty result), every page
+   assignment, geometry, table name and types; the contents found are those of the sorted-map specification *)
+Theorem model_images_wf : forall K V (cmp : K -> K -> comparison), OrderLaws cmp ->
+  forall (kenc : K -> bytes) (venc : V -> bytes) (bcmp : cmp_fn),
+  (forall a b, bcmp (kenc a) (kenc b) = cmp a b) ->
+  forall f (ksize : K -> N) (vsize : V -> N) (fixed_k fixed_v : bool) (page_size : N)
+         (sep : K -> K -> K) (inplace : list (K * V) -> K -> V -> bool),
+  valid_sep cmp sep ->
+  forall (ops : list (@tree_op K V)) t w g txid ts master_pn,
+  bt_root (snd (run_tree cmp ksize vsize fixed_k fixed_v page_size sep inplace ops empty_tree)) = Some t ->
+  shape_of kenc venc t w ->
+  db1_okb f g txid ts master_pn w = true ->
+  cmp_of_typename (ts_ktype ts) = Some bcmp ->
+  wf_image (db1_image f g txid ts master_pn w)
+  /\ image_table_entries (db1_image f g txid ts master_pn w) (ts_name ts)
+     = Some (List.map (enc_entry kenc venc) (snd (run cmp (List.map spec_op ops) []))).
+Proof. exact (@ModelImagesP.model_images_wf). Qed.
+
+(* ---- non-vacuity of the writer theorems: &[u8] -> &[u8] table, a program of 14 inserts, a remove, two pops
+   and an overwrite at page size 512 leaving a TWO-LEVEL tree (branch over four leaves), pages handed out in a
+   scrambled order; all hypotheses of model_images_wf hold, hence the image is well-formed; the (independent)
+   executable checker accepts the very same bytes; a flipped byte in a leaf of it is rejected *)
+Example ex_model_tree_two_level :
+  match mx_w with Some w => wheight w = 1%nat /\ length (wpages w) = 5%nat | None => False end.
+Proof. vm_compute. split; reflexivity. Qed.
+
+Example ex_model_image_wf :
+  wf_image mx_image
+  /\ image_table_entries mx_image (ascii_bytes "t")
+     = Some (snd (run lex_cmp (List.map spec_op mx_ops) [])).
+Proof. exact ModelExampleP.mx_image_wf. Qed.
+
+Example ex_model_image_accepted : wf_imageb mx_image = true.
+Proof. vm_compute. reflexivity. Qed.
+
+Example ex_model_image_damage_rejected : wf_imageb (set_byte mx_image 2600 99) = false.
+Proof. vm_compute. reflexivity. Qed.
+
+(* ------------------------------------------------------------------------------------------------
    Tie to the code (Gen/Fns.v is regenerated from base.rs / layout.rs / transactions.rs on every run by
    tools/gen_fns.py): the page-number packing, the page address arithmetic and the file geometry of the
    decoder (Format/Codec.v) are equal to the functions translated from the Rust sources. *)
@@ -152,3 +315,124 @@ Proof. exact pagenum_size_is_model. Qed.
 
 Theorem c10_code_pagelist_required_bytes_is_model : forall n, PageList_required_bytes n = 2 + 8 * n.
 Proof. exact pagelist_required_is_model. Qed.
+
+(* ------------------------------------------------------------------------------------------------
+   Tie to the code, wave 2 (see design.d/GEN.md): the byte-level readers of the decoder (Format/Codec.v, Pages.v,
+   Records.v, KeyCmp.v) read what the functions translated from header.rs / btree_base.rs / transactions.rs /
+   savepoint.rs / multimap_btree.rs / transaction_tracker.rs / types.rs read, at the same offsets. *)
+From RV Require Import Gen.FnsLibB Gen.FnsCodecP.
+
+Theorem c10_code_decode_header_fields_is_model : forall b h, decode_header b = Ok h ->
+  header_page_size b = h_psz h
+  /\ header_region_header_pages b = h_hdr_pages h
+  /\ header_region_max_data_pages b = h_max_pages h
+  /\ header_full_regions b = h_full h
+  /\ header_trailing_data_pages b = h_trailing h
+  /\ header_primary_slot b = god_primary (h_god h)
+  /\ header_recovery_required b = god_recovery (h_god h)
+  /\ header_two_phase_commit b = god_2pc (h_god h)
+  /\ decode_slot (header_slot0_bytes b) = Some (h_slot0 h)
+  /\ decode_slot (header_slot1_bytes b) = Some (h_slot1 h).
+Proof. exact decode_header_fields_is_model. Qed.
+
+Theorem c10_code_decode_slot_fields_is_model : forall b s, all_bytes b = true -> decode_slot b = Some s ->
+  Fns.slot_version b = sl_version s
+  /\ slot_stored_checksum b = sl_sum s
+  /\ slot_transaction_id b = sl_txid s
+  /\ option_map bhdr_of (slot_user_root b) = sl_user s
+  /\ option_map bhdr_of (slot_system_root b) = sl_system s.
+Proof. exact decode_slot_fields_is_model. Qed.
+
+Theorem c10_code_slot_checksummed_bytes_is_model : forall b,
+  slot_sum_computed b = Xxh3.xxh3_128 (slot_checksummed_bytes b).
+Proof. exact slot_checksummed_bytes_is_model. Qed.
+
+Theorem c10_code_get_u32_is_model : forall data, get_u32_guard data = true -> u32_at data 0 = Some (Fns.get_u32 data).
+Proof. exact get_u32_is_model. Qed.
+
+Theorem c10_code_get_u64_is_model : forall data, get_u64_guard data = true -> u64_at data 0 = Some (Fns.get_u64 data).
+Proof. exact get_u64_is_model. Qed.
+
+Theorem c10_code_btree_header_size_is_model : BtreeHeader_serialized_size = BHDR_SIZE.
+Proof. exact bhdr_size_is_model. Qed.
+
+Theorem c10_code_btree_header_from_le_bytes_is_model : forall b, all_bytes b = true -> lenN b = BHDR_SIZE ->
+  decode_bhdr b = Some (bhdr_of (BtreeHeader_from_le_bytes b)).
+Proof. exact bhdr_from_le_bytes_is_model. Qed.
+
+Theorem c10_code_btree_header_to_le_bytes_is_model : forall h, BtreeHeader_to_le_bytes h = encode_bhdr (bhdr_of h).
+Proof. exact bhdr_to_le_bytes_is_model. Qed.
+
+Theorem c10_code_leaf_key_end_is_model : forall page ks vs n kends i,
+  leaf_kends ks vs page n = Some kends -> i < n ->
+  LeafAccessor_key_end n ks vs page i = Some (nth (N.to_nat i) kends 0).
+Proof. exact leaf_key_end_is_model. Qed.
+
+Theorem c10_code_leaf_value_end_is_model : forall page ks vs n kends vends i,
+  1 <= n -> leaf_kends ks vs page n = Some kends ->
+  leaf_vends ks vs page n (last_or kends (leaf_kstart ks vs n)) = Some vends -> i < n ->
+  LeafAccessor_value_end n vs ks page i = Some (nth (N.to_nat i) vends 0).
+Proof. exact leaf_value_end_is_model. Qed.
+
+Theorem c10_code_leaf_total_length_is_model : forall ks vs page lf n,
+  decode_leaf ks vs page = Ok lf -> u16_at page 2 = Some n ->
+  LeafAccessor_total_length n vs ks page = lf_end lf.
+Proof. exact leaf_total_length_is_model. Qed.
+
+Theorem c10_code_branch_child_checksum_is_model : forall page n sums i,
+  read_sums page 8 (S (N.to_nat n)) = Some sums -> i <= n ->
+  BranchAccessor_child_checksum n i page = Some (nth (N.to_nat i) sums 0).
+Proof. exact branch_child_checksum_is_model. Qed.
+
+Theorem c10_code_branch_child_page_is_model : forall page n pns i d, all_bytes page = true ->
+  read_pagenums page (8 + 16 * (n + 1)) (S (N.to_nat n)) = Some pns -> i <= n ->
+  option_map pagenum_of (BranchAccessor_child_page n i page) = Some (nth (N.to_nat i) pns d).
+Proof. exact branch_child_page_is_model. Qed.
+
+Theorem c10_code_branch_total_length_is_model : forall ks page br n,
+  decode_branch ks page = Ok br -> u16_at page 2 = Some n ->
+  BranchAccessor_total_length ks n page = br_end br.
+Proof. exact branch_total_length_is_model. Qed.
+
+Theorem c10_code_page_list_is_model : forall b l, all_bytes b = true -> decode_page_list b = Ok l ->
+  PageList_len b = lenN l
+  /\ forall i d, i < lenN l -> pagenum_of (PageList_get b i) = nth (N.to_nat i) l d.
+Proof. exact page_list_is_model. Qed.
+
+Theorem c10_code_txn_page_key_from_bytes_is_model : forall b, lenN b = 16 ->
+  decode_txn_page_key b = Some (txn_page_of (TransactionIdWithPagination_from_bytes b)).
+Proof. exact txn_page_from_bytes_is_model. Qed.
+
+Theorem c10_code_txn_page_key_as_bytes_is_model : forall k,
+  TransactionIdWithPagination_as_bytes k = encode_txn_page_key (txn_page_of k).
+Proof. exact txn_page_as_bytes_is_model. Qed.
+
+Theorem c10_code_txn_page_key_compare_is_model : forall a b,
+  TransactionIdWithPagination_compare a b = KeyCmp.cmp_pair_u64 a b.
+Proof. exact txn_page_compare_is_model. Qed.
+
+Theorem c10_code_unsigned_key_compare_is_model : forall a b,
+  SavepointId_compare a b = KeyCmp.cmp_unsigned a b /\ le_u64_compare a b = KeyCmp.cmp_unsigned a b
+  /\ le_u32_compare a b = KeyCmp.cmp_unsigned a b /\ le_u128_compare a b = KeyCmp.cmp_unsigned a b.
+Proof. intros a b. exact (conj (savepoint_id_compare_is_model a b) (conj (le_u64_compare_is_model a b)
+  (conj (le_u32_compare_is_model a b) (le_u128_compare_is_model a b)))). Qed.
+
+Theorem c10_code_savepoint_record_is_model : forall b, all_bytes b = true ->
+  match decode_savepoint b, SerializedSavepoint_to_savepoint b with
+  | Ok s, Some ((v, id), (tx, root)) =>
+      v = sp_version s /\ id = sp_id s /\ tx = sp_txid s /\ option_map bhdr_of root = sp_root s
+  | Err _ _, None => True
+  | _, _ => False
+  end.
+Proof. exact savepoint_record_is_model. Qed.
+
+Theorem c10_code_collection_is_model : forall b, all_bytes b = true ->
+  UntypedDynamicCollection_collection_type_guard b = true ->
+  DynamicCollectionType_from_guard (byte_at b 0) = true ->
+  match UntypedDynamicCollection_collection_type b with
+  | DynamicCollectionType_Inline => decode_collection b = Ok (CollInline (UntypedDynamicCollection_as_inline b))
+  | DynamicCollectionType_SubtreeV2 =>
+      BHDR_SIZE + 1 <= slen b ->
+      decode_collection b = Ok (CollSubtree (bhdr_of (UntypedDynamicCollection_as_subtree b)))
+  end.
+Proof. exact collection_is_model. Qed.
